@@ -248,6 +248,18 @@ func genResp(t *rapid.T, cfg *Config, scale int, e2e bool, retired ...Shape) Res
 			r.CR = rapid.SampledFrom(oddContentRanges).Draw(t, "cr")
 			r.Star, r.P206, r.Start = false, false, 0
 		}
+		if r.Start >= 0 && rapid.IntRange(0, 5).Draw(t, "other_status") == 0 {
+			// statuses other than 206 that carry a Content-Range all the same (416 as
+			// http.ServeContent sends it for a range past the end, a 200, a 404): no range start,
+			// the shape applies from offset 0. A drawn start > 0 keeps its aim: the body is
+			// stretched so that it still runs over the offset it was aimed at.
+			st := rapid.SampledFrom([]struct {
+				code int
+				cr   string
+			}{{416, "bytes */5000"}, {416, "bytes */0"}, {200, "bytes 5-9/20"}, {200, "bytes */1000"}, {404, "bytes 0-0/1"}, {203, "bytes 7-8/*"}, {416, ""}}).Draw(t, "status")
+			r.Body += int(r.Start)
+			r.Status, r.CR, r.Star, r.P206, r.Start = st.code, st.cr, false, false, 0
+		}
 		return r
 	}
 	r.Head = pick(t, "head", 20, 21, 60, 60, 200, 300, 4096, 5000)
@@ -604,6 +616,9 @@ func analyze(c Case) map[string]bool {
 		if r.CR != "" {
 			cl["odd-content-range"] = true
 		}
+		if r.Status != 0 && r.Status != 206 && r.Pat >= 0 && cfg.byPat(r.Pat) != nil && cfg == active {
+			cl["matching-other-status-with-content-range"] = true
+		}
 		if r.Pat >= 0 && cfg == active && cfg.byPat(r.Pat) == nil && everNamed[r.Pat] {
 			cl["pattern-no-longer-configured"] = true
 		}
@@ -910,6 +925,16 @@ func fixedCases() []Case {
 		{Op: "resp", Conn: 0, R: &Resp{Pat: 1, Body: 500, Seed: 77, OClose: true}},
 		{Op: "resp", Conn: 1, R: &Resp{Pat: 1, Body: 500, Seed: 78, OClose: true, ReqClose: true}},
 		{Op: "resp", Conn: 2, R: &Resp{Pat: 1, Body: 0, Seed: 79, OClose: true}},
+	}})
+	// only a 206 has a range start: a 416 with "bytes */N", a 200 or a 404 carrying a Content-Range are
+	// shaped from offset 0 (halt, then the counted close, which the next response no longer finds)
+	os := Config{Shapes: []Shape{{Pat: 1, Var: 1, Halts: []Halt{{At: 150, Dur: 30, N: -1}}, Closes: []CloseAct{{At: 200, N: 2}}}}}
+	out = append(out, Case{Level: "e2e", Steps: []Step{
+		{Op: "post", Cfg: &os}, {Op: "open", Conn: 0}, {Op: "open", Conn: 1}, {Op: "open", Conn: 2}, {Op: "open", Conn: 3},
+		{Op: "resp", Conn: 0, R: &Resp{Pat: 1, Body: 1000, Seed: 86, Status: 416, CR: "bytes */5000"}},
+		{Op: "resp", Conn: 1, R: &Resp{Pat: 1, Body: 6000, Seed: 87, Status: 200, CR: "bytes 500-999/6000"}},
+		{Op: "resp", Conn: 2, R: &Resp{Pat: 1, Body: 1000, Seed: 88, Status: 404, CR: "bytes */0"}},
+		{Op: "resp", Conn: 3, R: &Resp{Pat: -1, Body: 1000, Seed: 89, Status: 416, CR: "bytes */5000"}},
 	}})
 	// documents that are JSON but no configuration are answered 400 and change nothing
 	keep := Config{Latency: 3, Shapes: []Shape{{Pat: 1, Var: 1, Closes: []CloseAct{{At: 100, N: -1}}}}}
